@@ -16,6 +16,7 @@ import (
 	"os"
 	"reflect"
 	"runtime"
+	"runtime/debug"
 	"runtime/pprof"
 	"sort"
 	"strings"
@@ -393,6 +394,7 @@ func main() {
 		os.Exit(2)
 	}
 	runtime.GOMAXPROCS(job.GMP)
+	debug.SetGCPercent(800) // every template call allocates a fresh func map; do not spend the budget collecting it
 	if pf := os.Getenv("P09_PROF"); pf != "" {
 		f, _ := os.Create(pf)
 		pprof.StartCPUProfile(f)
